@@ -330,16 +330,48 @@ def coq_eval_term(ctx, header, term, timeout=300):
 
 # --------------------------------------------------------------------------- implementation workers
 
+def _limit_worker():
+    # a runaway implementation (e.g. a seeded change that loops while allocating) must die
+    # quickly instead of taking the machine down
+    import resource
+    lim = int(os.environ.get('VERIF_WORKER_MEM', str(6 * 1024 ** 3)))
+    resource.setrlimit(resource.RLIMIT_AS, (lim, lim))
+
+
 def run_impl(module, payload, timeout=600, repo=None):
     """Run harness/impl/<module>.py in a fresh interpreter against REPO; JSON in, JSON out."""
     env = impl_env()
     if repo:
         env['PYTHONPATH'] = repo + os.pathsep + VERIF
     r = subprocess.run([PY, '-m', 'harness.impl.' + module], input=json.dumps(payload),
-                       capture_output=True, text=True, env=env, cwd=VERIF, timeout=timeout)
+                       capture_output=True, text=True, env=env, cwd=VERIF, timeout=timeout,
+                       preexec_fn=_limit_worker)
     if r.returncode != 0:
         raise RuntimeError('implementation worker %s failed (rc=%d): %s' % (module, r.returncode, r.stderr[-2000:]))
     return json.loads(r.stdout)
+
+
+def run_cases_bisect(module, cases, make_payload, crashed, timeout=120):
+    """Run a list of cases through a worker that returns one result per case.  If the worker
+    crashes, hangs or runs out of memory the batch is bisected down to the single case that
+    does it, whose result is `crashed(case, reason)`."""
+    if not cases:
+        return []
+    try:
+        out = run_impl(module, make_payload(cases), timeout=timeout)
+        if isinstance(out, list) and len(out) == len(cases):
+            return out
+        reason = 'worker returned %r results for %d cases' % (len(out) if isinstance(out, list) else out, len(cases))
+    except subprocess.TimeoutExpired:
+        reason = 'timeout after %ds' % timeout
+    except RuntimeError as e:
+        reason = str(e)[-400:]
+    if len(cases) == 1:
+        return [crashed(cases[0], reason)]
+    mid = len(cases) // 2
+    t2 = max(20, timeout // 2)
+    return (run_cases_bisect(module, cases[:mid], make_payload, crashed, t2) +
+            run_cases_bisect(module, cases[mid:], make_payload, crashed, t2))
 
 
 def run_impl_parallel(module, payloads, timeout=600):
